@@ -13,6 +13,7 @@ CALLS = {   # name -> (call dict, abstract declared files, abstract outputs)
     "gen4": ({"op": "gen", "runname": "core_maths", "n": 4}, [], ["lib4"]),
     "genext": ({"op": "gen", "runname": "ext_maths", "n": 3}, [], ["libext"]),
     "gensub": ({"op": "gen", "runname": "verif_h", "n": 3, "basis": SUB}, [], ["libsub"]),
+    "staleround": ({"op": "plant_rounds", "runname": "core_maths", "n": 3}, [], ["rounds3"]),
     "fit": ({"op": "fit", "n": 3, "seed": 0}, ["lib3"], ["nll", "tmp"]),
     "fit7": ({"op": "fit", "n": 3, "seed": 7}, ["lib3"], ["nll", "tmp"]),
     "fitother": ({"op": "fit", "n": 3, "seed": 3, "run": "other"}, ["lib3"], ["otherout", "tmp"]),
@@ -20,7 +21,7 @@ CALLS = {   # name -> (call dict, abstract declared files, abstract outputs)
     "match": ({"op": "match", "n": 3}, ["lib3", "nll", "fish"], ["cm", "tmp"]),
     "combine": ({"op": "combine", "n": 3}, ["lib3", "cm"], ["final", "tmp"]),
 }
-ABSTRACT = ["lib2", "lib3", "lib4", "libext", "libsub", "nll", "fish", "cm", "final", "tmp", "otherout"]
+ABSTRACT = ["lib2", "lib3", "lib4", "libext", "libsub", "nll", "fish", "cm", "final", "tmp", "otherout", "rounds3"]
 # concrete declared inputs / outputs of the observed calls (paths relative to the scratch root)
 DECL = {"gen3": [], "gen4": [],
         "fit": [LIB3 + "unique_equations_3.txt", "data_r/d.txt"],
@@ -158,8 +159,9 @@ def run(tier, replay=None):
             snapB, stB = fresh_cache[ikey]
             if stB != "ok":
                 r.violation("crash_fresh:" + X, "call %s in a fresh process on the same inputs failed: %s" % (X, stB), {"X": X})
-            elif snapA != snapB:
-                diff = sorted(f for f in set(snapA) | set(snapB) if snapA.get(f) != snapB.get(f))
+            elif any(snapA.get(f) != h for f, h in snapB.items()):
+                # the files the call produces are those of the fresh run; other files an earlier run left in the directory are not its output
+                diff = sorted(f for f in snapB if snapA.get(f) != snapB.get(f))
                 r.violation("differs:" + key, "outputs of %s after history %s differ from a fresh process with empty output directories on the same inputs: %s" % (
                     X, hist, diff[:6]), {"X": X, "history": hist, "files": diff})
             # ---- file-operation trace of the whole history, observed call = last, judged by HistTrace.tla
